@@ -24,7 +24,7 @@ META = {
             'the written representation of a number (verified against the host bytes at CLOSE). Not covered: textfile_encoding, '
             'PRINT # with ; or , or several expressions, reading past the end, type-mismatched reads, pre-existing host files, WIDTH. '
             'Open findings: strings/lines of exactly 255 characters desynchronise the following reads; strings containing LF read back '
-            'with CR under the default newline replacement.',
+            'with CR under the default newline replacement; with soft_linefeed=True a string starting with CR LF loses the LF.',
 }
 
 NF = 2
@@ -338,6 +338,36 @@ def random_history(d, rng):
         d.do({'op': 'close', 'n': n})
 
 
+def edge_history(d, rng, soft):
+    """Scripted sessions for the input classes with open findings and their neighbours (every run, independent of the seed):
+    strings / lines of 254 and 255 characters, LF inside a string, CR LF at the start of a string."""
+    d.fresh(soft)
+    S = lambda b: {'k': 's', 'b': list(b)}
+    N = lambda lit, t: {'k': 'n', 'lit': lit, 't': t}
+    cases = [
+        [('w', [S(b'y' * 254), N('7', '%'), S(b'k')])],
+        [('w', [S(b'z' * 255), N('7', '%'), S(b'k')])],
+        [('p', b'r' * 254), ('p', b'tail')],
+        [('p', b'q' * 255), ('p', b'tail')],
+        [('w', [S(b'a\nb'), N('5', '%')]), ('w', [S(b' x,\ry '), N('-2.5', '!')])],
+        [('w', [S(b'\r\nA'), N('1D+20', '#')])],
+        [('w', [S(b'A\r\n'), S(b'x\r\ny'), N('1.5', '!')])],
+    ]
+    for i, lines in enumerate(cases):
+        n, nm = 1 + i % 2, NAMES[i % 2]
+        d.do({'op': 'open', 'n': n, 'name': nm, 'mode': 'O'})
+        for kind, body in lines:
+            if kind == 'w':
+                d.do({'op': 'write', 'n': n, 'items': body})
+            else:
+                d.do({'op': 'print', 'n': n, 's': list(body)})
+        d.do({'op': 'close', 'n': n})
+        d.do({'op': 'open', 'n': n, 'name': nm, 'mode': 'I'})
+        while d.read_some(n, rng, kmax=1 if i % 3 else 3):
+            pass
+        d.do({'op': 'close', 'n': n})
+
+
 # ---- verdicts -------------------------------------------------------------------------------------------------------
 def chunks_at_resets(d, size):
     cuts, last = [0], 0
@@ -408,12 +438,14 @@ def run(ctx):
     nwalk = len(walks)
     # 3. code -> spec: random histories
     nh = ctx.pick(220, 4000)
+    edge_history(d, ctx.rng, False)
+    edge_history(d, ctx.rng, True)
     for h in range(nh):
         random_history(d, ctx.rng)
     if d.s:
         d.s.close()
     verdicts = run_validation(ctx, d)
-    ctx.cov['traces_validated_against_impl'] += nwalk + nh
+    ctx.cov['traces_validated_against_impl'] += nwalk + nh + 2
     ev = d.events
     stats = collections.Counter()
     for e in ev:
